@@ -53,7 +53,7 @@ def listings(ctx):
             ok = any(has_method(at, b) for b in BS) or any("binary_search" in a for a in at)
             ctx.decide(o, ok, "index <- binary_search", "the index of %s at %s does not come from a binary search on the listing" % (op, c.line()), loc=c.line())
     o = ctx.ob("R2.sites", "T8", SCHEDULE, "edits of the sorted id listings are found (floor 6)")
-    ctx.decide(o, n >= 6, "%d sites" % n, "only %d sites found" % n)
+    ctx.floor(o, n, 6, "listing edits")
     return sites
 
 
